@@ -112,7 +112,7 @@ def mon_C01(hist, ctxs, kf):
                                        x.pre["now"], None if mid is None else H(mid)])
         if x.kind == "cmd" and x.mtype == "open" and x.ok and x.c in x.bound_pre:
             key = (x.bound_pre[x.c][0], H(x.msg["mailbox"]))
-            got = sorted(json.dumps(f[4:]) for f in x.frames_c if f[3] == "message")
+            got = sorted(json.dumps(f[4:9]) for f in x.frames_c if f[3] == "message")
             want = sorted(json.dumps(r) for r in ledger.get(key, []))
             if want:
                 nontrivial += 1
@@ -143,7 +143,7 @@ def mon_C02(hist, ctxs, kf):
             mid = x.msg.get("id")
             want = [x.bound_pre[x.c][1], H(x.msg["phase"]), H(x.msg["body"]), x.pre["now"],
                     None if mid is None else H(mid)]
-            got = sorted((f[1], json.dumps(f[4:])) for f in msgframes)
+            got = sorted((f[1], json.dumps(f[4:9])) for f in msgframes)
             exp = sorted((c, json.dumps(want)) for c in subs)
             if len(subs) > 1:
                 nontrivial += 1
